@@ -30,6 +30,8 @@ PARTS += ["validators"]   # mir_eval input validators -> MirGen/Validators.lean 
 PARTS += ["sepcrit"]      # mir_eval/separation.py criteria, decomposition arithmetic -> MirGen/SepCrit.lean (C19)
 PARTS += ["pattern"]      # mir_eval/pattern.py metrics -> MirGen/Pattern.lean (C04, C01; after validators: binds to Mir.GenV.pattern.*)
 PARTS += ["beat"]         # mir_eval/beat.py trim_beats, _get_reference_beat_variations, p_score -> MirGen/Beat.lean (C04)
+PARTS += ["evalglue"]     # onset.evaluate / tempo.evaluate glue -> MirGen/EvalGlue.lean (C04; translator: alignment.py; binds the evglue part's metrics)
+PARTS += ["alignment"]    # mir_eval/alignment.py metrics + evaluate glue -> MirGen/Alignment.lean (C04; binds Mir.GenV.alignment.validate)
 
 
 def write_if_changed(path, text):
